@@ -19,7 +19,10 @@
      no event / 200 with a `retry:` event only (bare, named as the SDK's server writes it, with the id resumed from) / 200 with
      the rest - every sequence for MaxRetries 1 and 2 (genBA), the grid k = 0..MaxRetries+1 fruitless resumptions x j =
      1..MaxRetries failed attempts at every position for MaxRetries 2, 3 (genB) and the default 5, option left unset (genB5);
-     the server is stuck once the script is used up, so a client that does not give up is seen polling.
+     the server is stuck once the script is used up, so a client that does not give up is seen polling; and a resumption REFUSED
+     WITH A JSON-RPC ERROR BODY (genJ): after a first cut that left the stream resumable the reconnect GET is answered, at attempt
+     1 or (after a refused / 503 attempt) 2, with a non-2xx, non-transient status (400, 409, 404) whose body is a JSON-RPC error
+     response carrying the id of the pending call, another id, or null: the call must end with an error, never hang.
   3. harness/mcp/c09_streamcli_test.go runs them on a real mcp.Client over a real StreamableClientTransport
      with a scripted RoundTripper inside testing/synctest, plus EVERY byte offset of the reference bodies x
      {read error, clean EOF} at session level and at function level (scanEvents alone).
@@ -44,6 +47,11 @@ TRANSIENT = ("429", "500", "502", "503", "504")
 NONTRANSIENT = ("404", "403", "501")
 ALL_ANSWERS = '{"terr", "ok", "503", "404"}'
 FULL_ANSWERS = '{"terr", "ok", %s}' % ", ".join('"%s"' % x for x in TRANSIENT + NONTRANSIENT)
+# a non-2xx, non-transient status whose body is a JSON-RPC error response: "<status>:<id of that response>" (ErrBodyAnswers in
+# StreamCli.tla; id = the pending call's / another / null)
+ERRBODY = ("400:own", "400:other", "400:null", "409:own", "409:other", "409:null", "404:own")
+ERRBODY_ANSWERS = '{"terr", "ok", "503", %s}' % ", ".join('"%s"' % x for x in ERRBODY)
+STATUS_ANSWERS = FULL_ANSWERS[:-1] + ", " + ", ".join('"%s"' % x for x in ERRBODY) + "}"
 
 CFG_TMPL = """SPECIFICATION Spec
 CONSTANTS
@@ -154,7 +162,7 @@ def ncuts(p):
     return sum(1 for b in p["exp"]["bodies"] if b["knd"] != "none")
 
 
-REPLAYED = ("gen1", "gen2", "gen3", "genI", "genR", "genK", "genS", "genB", "genBA", "genB5")
+REPLAYED = ("gen1", "gen2", "gen3", "genI", "genR", "genK", "genS", "genB", "genBA", "genB5", "genJ")
 BUDGET_GENS = ("genB", "genBA", "genB5")
 
 
@@ -289,6 +297,9 @@ def context_of(inv, e):
         # the client stopped after the last thing the server did
         if recon and len(recon) == len(bodies) and recon[-1]["outs"] and recon[-1]["outs"][-1] != "ok":
             last = recon[-1]["outs"][-1]
+            if ":" in last and inv == "CleanFailure":
+                # the resumption was refused with a JSON-RPC error body (ErrBodyAnswers) and the call never ended
+                return "reconnect=%s+jsonrpc-error-body" % last.split(":")[0]
             if (last in TRANSIENT or last == "terr") and inv in ("RealResponseWithinBudget", "CleanFailure"):
                 # ... and when the bodies before that reconnection had brought nothing new across (the other budget had
                 # been drawn on, not exhausted), that is part of the case
@@ -415,7 +426,7 @@ def _run(tier, seed, replay, ctl):
         "message it had at least partly written",
         "retry budget, read conservatively for the verdict: the real response is required when every reconnect sees fewer than "
         "MaxRetries failed attempts (transport error or a transient status: 429, 500, 502, 503, 504 - every member of the class), no "
-        "other status (404, 403, 501, 400), and fewer than MaxRetries bodies IN A ROW end without a new id "
+        "other status (404, 403, 501, 400, 409 - with or without a JSON-RPC error response as body), and fewer than MaxRetries bodies IN A ROW end without a new id "
         "(a body that brings a new id across starts a new stretch: the budget is per stretch without progress, not per logical stream); "
         "beyond that only a clean completion is required (the exact boundary is compared with the model as drift)",
         "an event whose content lines were all received when a body ended CLEANLY but whose blank line was not may or may not "
@@ -449,7 +460,7 @@ def _run(tier, seed, replay, ctl):
                    # the whole status class against the repaired design: every transient status, at every attempt and in
                    # every sequence, is retried within the budget
                    ("mc_status", 1, cfg_text(fix="TRUE", tail=PROP_INVS, ms="{2}", mrs="{1, 2, 3}", cuts=1, shapes="IdShapes",
-                                             schemes='{"dec"}', classes='{"bnd", "data"}', answers=FULL_ANSWERS)),
+                                             schemes='{"dec"}', classes='{"bnd", "data"}', answers=STATUS_ANSWERS)),
                    # longer budgets against a stuck server: every run of fruitless bodies ends (Terminates, InvBoundedRetries)
                    ("mc_runs", 1 if quick else 2,
                     cfg_text(fix="TRUE", tail=PROP_INVS, ms="{2}", mrs="{1, 2, 3}", cuts=2, tails=both, shapes="IdShapes", schemes='{"dec"}',
@@ -460,6 +471,9 @@ def _run(tier, seed, replay, ctl):
         design += [("mc_budget", 1, budget_cfg(bc, mrs="{3}" if quick else "{2, 3}", fix="TRUE", tail="CONSTRAINT %s\n%s" % (bc, PROP_SAFETY)))]
         base = cfg_text(tail="", ms="{2}", cuts=2, schemes='{"dec"}', classes='{"bnd", "data"}', tails=both)
         design += [("wit:" + w, 1, base.replace("CHECK_DEADLOCK", "INVARIANT %s\nCHECK_DEADLOCK" % w)) for w in WITNESSES]
+        design += [("wit:NeverRefusedWithErrBody", 1,
+                    cfg_text(tail="INVARIANT NeverRefusedWithErrBody", kinds='{"post"}', shapes="FirstOnly", ms="{2}", mrs="{1, 2}", cuts=1,
+                             schemes='{"dec"}', classes='{"bnd"}', answers=ERRBODY_ANSWERS))]
 
     def run_design():
         try:
@@ -497,8 +511,12 @@ def _run(tier, seed, replay, ctl):
         ("genB", 1, budget_cfg("Budgets1", mrs="{2, 3}") if quick else budget_cfg("Budgets2", mrs="{2, 3}", shapes="TwoShapes")),
         # ... and every sequence of attempt outcomes for MaxRetries 1 and 2
         ("genBA", 1, budget_cfg("BudgetsAll", mrs="{1, 2}", kinds='{"post"}' if quick else '{"post", "sa"}')),
+        # a resumption refused with a JSON-RPC error body: first cut on an event boundary after an id, then every sequence of
+        # refused / 503 attempts that ends with 400 / 409 / 404 + error body (id own, other, null) at attempt 1 or 2
+        ("genJ", 1, cfg_text(cuts=1, shapes="FirstOnly", schemes='{"dec"}', ms="{2}", mrs="{1, 2}", classes='{"bnd"}',
+                             answers=ERRBODY_ANSWERS, tail="CONSTRAINT JsonErr\nINVARIANTS ExportJsonErr")),
     ]
-    GEN = ("gen1", "gen2", "gen3", "gen1L", "genI", "genR", "genK", "genS", "genB", "genBA")
+    GEN = ("gen1", "gen2", "gen3", "gen1L", "genI", "genR", "genK", "genS", "genB", "genBA", "genJ")
     if not quick:
         # ... and the grid at the documented default, MaxRetries left unset (= 5)
         jobs.append(("genB5", 1, budget_cfg("Budgets1", mrs="{5}", cuts=7)))
@@ -527,6 +545,10 @@ def _run(tier, seed, replay, ctl):
     nowit = set(BUDGET_WITNESSES) - {w for p in exported["genB"] for w in p.get("wit", [])}
     if nowit:
         raise vlib.MachineryError("vacuity: no behaviour of the budget family is a witness of %s" % sorted(nowit))
+    # the new answer class must have been generated in full: every member at attempt 1 and at attempt 2, for a pending call
+    seenj = {(o, len(r["outs"])) for p in exported["genJ"] if p["cfg"]["kind"] == "post" for r in p["exp"]["recon"] for o in r["outs"][-1:]}
+    if {(a, n) for a in ERRBODY for n in (1, 2)} - seenj:
+        raise vlib.MachineryError("vacuity: genJ lacks %s" % sorted({(a, n) for a in ERRBODY for n in (1, 2)} - seenj)[:6])
     t_tlc = time.time() - v.t0
     if len(exported["gen1"]) < 5000 or len(exported["gen2"]) < 5000 or len(exported["gen3"]) < 1000 or \
             len(exported["genR"]) < 200 or len(exported["genK"]) < 100 or len(exported["genS"]) < 300 or \
@@ -561,10 +583,10 @@ def _run(tier, seed, replay, ctl):
     else:
         want = {"gen1": 3500 if quick else 10 ** 9, "gen2": 2000 if quick else 10 ** 9, "gen3": 2000 if quick else 40000,
                 "genI": 1500 if quick else 10 ** 9, "genR": 1500 if quick else 10 ** 9, "genK": 500 if quick else 10 ** 9,
-                "genS": 10 ** 9, "genB": 10 ** 9, "genBA": 500 if quick else 10 ** 9, "genB5": 10 ** 9}
+                "genS": 10 ** 9, "genB": 10 ** 9, "genBA": 500 if quick else 10 ** 9, "genB5": 10 ** 9, "genJ": 10 ** 9}
         for name in REPLAYED:
             pool = exported[name]
-            if name not in ("gen1", "genS") + BUDGET_GENS:
+            if name not in ("gen1", "genS", "genJ") + BUDGET_GENS:
                 pool = [p for p in pool if ncuts(p) >= 2]
             chosen = []
             if name == "genR":
@@ -719,7 +741,8 @@ def _run(tier, seed, replay, ctl):
                      "resumed bodies ending at offset 0, MaxRetries in {1,2,3}, against a server that recovers and against a stuck one; every "
                      "answer sequence over the status class {429,500,502,503,504} + transport error + {404,403,501}; the two budgets crossed: "
                      "per attempt refused / 503 / 200 empty / 200 with a retry-only event (bare, named, with the resumed id) / 200 with the rest, "
-                     "every sequence for MaxRetries 1-2, the grid (0..MaxRetries+1 fruitless bodies x 1..MaxRetries failed attempts, every "
+                     "every sequence for MaxRetries 1-2, a resumption refused at attempt 1 or 2 with 400 / 409 / 404 and a JSON-RPC error body (id of the "
+                     "pending call, another id, null), the grid (0..MaxRetries+1 fruitless bodies x 1..MaxRetries failed attempts, every "
                      "position) for MaxRetries 2, 3 and - thorough - the default 5 with the option unset; quick tier: one per "
                      "abstract class plus a seeded sample), byte = every byte offset of the first body of each reference stream x {read error, "
                      "clean EOF} on a real session, scan = the same offsets through scanEvents alone; distinct = (configuration, bodies served "
@@ -735,6 +758,7 @@ def _run(tier, seed, replay, ctl):
                                  "answer_sequences_over_status_class": (not replay) and ran["genS"] == len(exported["genS"]),
                                  "budget_grid": (not replay) and ran["genB"] == len(exported["genB"]) and ran["genB5"] == len(exported["genB5"]),
                                  "budget_all_attempt_sequences_mr_1_2": (not replay) and ran["genBA"] == len(exported["genBA"]),
+                                 "resumption_refused_with_jsonrpc_error_body": (not replay) and ran["genJ"] == len(exported["genJ"]),
                                  "byte_offsets_of_reference_bodies": not replay}
     v.cov["exhaustive"] = all(v.cov["exhaustive_parts"].values())
     shown = 0
